@@ -449,6 +449,14 @@ func (e *Env) bin(x *EBin) TV {
 	return TV{}
 }
 
+// materialize turns a lazy struct reference into a struct value.
+func (e *Env) materialize(tv TV) Val {
+	if p, ok := tv.V.(*PRef); ok && isStruct(tv.T) {
+		return e.st.loadObj(p.Ref, p.Root, p.Path)
+	}
+	return tv.V
+}
+
 func (e *Env) equal(a, b TV) Term {
 	as, aok := a.V.(*StructVal)
 	bs, bok := b.V.(*StructVal)
@@ -577,12 +585,12 @@ func (e *Env) call(c *ECall) TV {
 		return TV{And(Eq(st.mapHas(ma, kt, vt), st.mapHas(mb, kt, vt)), Eq(st.mapVal(ma, kt, vt), st.mapVal(mb, kt, vt))), boolT}
 	case "calls":
 		key := exprKey(c.Args[0])
-		now := st.comp("N!"+key, SI)
-		old := e.oldComp("N!"+key, SI)
+		now := st.comp("N!"+sanitize(key), SI)
+		old := e.oldComp("N!"+sanitize(key), SI)
 		return TV{Sub(now, old), nil}
 	case "ncalls":
 		key := exprKey(c.Args[0])
-		return TV{st.comp("N!"+key, SI), nil}
+		return TV{st.comp("N!"+sanitize(key), SI), nil}
 	case "arg":
 		return e.callArg(c)
 	case "ret":
@@ -601,8 +609,8 @@ func (e *Env) call(c *ECall) TV {
 		if s == "" {
 			sfail("composite result of %q is not logged", key)
 		}
-		base := e.oldComp("N!"+key, SI)
-		arr := st.comp(fmt.Sprintf("R!%s!%d", key, j), ArrSort(SI, s))
+		base := e.oldComp("N!"+sanitize(key), SI)
+		arr := st.comp(fmt.Sprintf("R!%s!%d", sanitize(key), j), ArrSort(SI, s))
 		return TV{Sel(arr, Add(base, i)), rt[j]}
 	case "fresh":
 		p := e.toTerm(e.eval(c.Args[0]))
@@ -697,6 +705,19 @@ func (e *Env) call(c *ECall) TV {
 		return TV{UF(SI, "f64.add", e.toTerm(e.eval(c.Args[0])), e.toTerm(e.eval(c.Args[1]))), types.Typ[types.Float64]}
 	case "flit":
 		return TV{e.x.floatLit(exprKey(c.Args[0])), types.Typ[types.Float64]}
+	case "timeunix":
+		// the value time.Unix(sec, nsec) of the time model
+		tt := e.x.eng.lookupType(e.pkg, "time", "Time")
+		if tt == nil {
+			sfail("package time is not loaded")
+		}
+		sv := e.st.freshVal("time.unix", tt).(*StructVal)
+		fillFromFn(e.st, sv, "time.unix", []Term{e.intTerm(c.Args[0]), e.intTerm(c.Args[1])})
+		return TV{sv, tt}
+	case "timeafter":
+		a := flatten(e.st, e.materialize(e.eval(c.Args[0])))
+		b := flatten(e.st, e.materialize(e.eval(c.Args[1])))
+		return TV{UF(SB, "time.after", append(a, b...)...), boolT}
 	case "min":
 		a, b := e.intTerm(c.Args[0]), e.intTerm(c.Args[1])
 		return TV{Ite(Le(a, b), a, b), nil}
@@ -853,8 +874,8 @@ func (e *Env) callArg(c *ECall) TV {
 	if s == "" {
 		s = SI // boxed struct
 	}
-	base := e.oldComp("N!"+key, SI)
-	arr := e.st.comp(fmt.Sprintf("A!%s!%d", key, j), ArrSort(SI, s))
+	base := e.oldComp("N!"+sanitize(key), SI)
+	arr := e.st.comp(fmt.Sprintf("A!%s!%d", sanitize(key), j), ArrSort(SI, s))
 	v := Sel(arr, Add(base, i))
 	if isStruct(t) {
 		return TV{&PRef{Ref: v, Root: t}, t}
